@@ -79,13 +79,39 @@ def quad_mat(f, ts, dt):
     return sum(f(t) for t in ts) * dt
 
 
-def case_single(pd, theta, phi, p, T1, T2):
+def strength_e1(T1):
+    """sqrt(tg/T1); T1 = 0 means 'relaxation off'"""
+    return 0.0 if T1 == 0 else math.sqrt(TG / T1)
+
+
+def strength_ep(T1, T2):
+    """sqrt((tg/T2 - tg/(2 T1))/2); T2 = 0 means 'dephasing off', T1 = 0 drops the T1 term"""
+    if T2 == 0:
+        return 0.0
+    return math.sqrt(0.5 * (TG / T2 - (0.0 if T1 == 0 else TG / T1 / 2)))
+
+
+_OBJECTS = {}
+
+
+def factory_for(pd, kind):
+    """ONE pulse / integrator / factory object per pulse description serves all cases of the run (as inside a gate set):
+    a sample must follow the model whatever was requested from the object before"""
     import quantum_gates._gates.factories as F
     from quantum_gates._gates.integrator import Integrator
-    pulse = gc.build_pulse(pd)
+    key = json.dumps(pd)
+    if key not in _OBJECTS:
+        pulse = gc.build_pulse(pd)
+        integ = Integrator(pulse)
+        _OBJECTS[key] = (pulse, F.SingleQubitGateFactory(integ), F.CRFactory(integ))
+    pulse, sq, cr = _OBJECTS[key]
+    return pulse, (sq if kind == "single" else cr)
+
+
+def case_single(pd, theta, phi, p, T1, T2):
+    pulse, sq = factory_for(pd, "single")
     Fp = pulse.get_parametrization()
-    sq = F.SingleQubitGateFactory(Integrator(pulse))
-    ed = math.sqrt(p / 4); e1 = math.sqrt(TG / T1); ep = math.sqrt(0.5 * (TG / T2 - TG / T1 / 2))
+    ed = math.sqrt(p / 4); e1 = strength_e1(T1); ep = strength_ep(T1, T2)
     spec = [("X", X, ed, ["sin", "s2", "one"]), ("Y", Y, ed, ["sin", "s2", "one"]), ("Z", Z, ed, ["cos", "sin"]),
             ("sigma-", SM, e1, ["sin", "s2", "one"]), ("Z-dephasing", Z, ep, ["cos", "sin"])]
     bad = []
@@ -119,14 +145,11 @@ def case_single(pd, theta, phi, p, T1, T2):
 
 
 def case_cr(pd, theta, phi, t_cr, pcr, T1c, T2c, T1t, T2t):
-    import quantum_gates._gates.factories as F
-    from quantum_gates._gates.integrator import Integrator
-    pulse = gc.build_pulse(pd)
+    pulse, cr = factory_for(pd, "cr")
     Fp = pulse.get_parametrization()
-    cr = F.CRFactory(Integrator(pulse))
     a = t_cr / TG
-    edc = math.sqrt(pcr / (4 * a)); e1c = math.sqrt(TG / T1c); e1t = math.sqrt(TG / T1t)
-    epc = math.sqrt(.5 * (TG / T2c - TG / T1c / 2)); ept = math.sqrt(.5 * (TG / T2t - TG / T1t / 2))
+    edc = math.sqrt(pcr / (4 * a)); e1c = strength_e1(T1c); e1t = strength_e1(T1t)
+    epc = strength_ep(T1c, T2c); ept = strength_ep(T1t, T2t)
     spec = [("sigma-(x)1", K(SM, I2), e1c, ["cos", "sin"]), ("1(x)sigma-", K(I2, SM), e1t, ["sin", "s2", "one"]),
             ("Z(x)1 dephasing", K(Z, I2), epc, ["one"]), ("1(x)Z dephasing", K(I2, Z), ept, ["cos", "sin"]),
             ("X(x)1", K(X, I2), edc, ["cos", "sin"]), ("Y(x)1", K(Y, I2), edc, ["cos", "sin"]), ("Z(x)1", K(Z, I2), edc, ["one"]),
@@ -206,12 +229,23 @@ def boundary_probe(rng, n):
 
 
 def make(rng, kind):
-    th = rng.choice([rng.uniform(-6, 6), math.pi, math.pi / 2, -math.pi / 4, math.pi / 4])
+    th = rng.choice([rng.uniform(-6, 6), math.pi, math.pi / 2, -math.pi / 4, math.pi / 4, 0.0, rng.uniform(-1e-3, 1e-3)])
     phi = rng.uniform(-6, 6)
-    T1 = rng.uniform(5e-6, 300e-6); T2 = rng.uniform(0.2, 1.999) * T1
+    def pair():
+        """(T1, T2) incl. the 'off' regimes: T1 = 0 with dephasing on, dephasing off, both off"""
+        r = rng.random()
+        t1 = rng.uniform(5e-6, 300e-6)
+        if r < 0.2:
+            return 0.0, rng.uniform(5e-6, 300e-6)
+        if r < 0.27:
+            return t1, 0.0
+        if r < 0.3:
+            return 0.0, 0.0
+        return t1, rng.uniform(0.2, 1.999) * t1
+    T1, T2 = pair()
     if kind == "single":
         return [th, phi, rng.uniform(1e-5, 5e-2), T1, T2]
-    T1t = rng.uniform(5e-6, 300e-6); T2t = rng.uniform(0.2, 1.999) * T1t
+    T1t, T2t = pair()
     return [th, phi, rng.uniform(0.5, 8) * TG, rng.uniform(1e-3, 0.1), T1, T2, T1t, T2t]
 
 
@@ -237,6 +271,22 @@ def main(ctx):
                 hist[f"{kind}/{pd[0]}"] = hist.get(f"{kind}/{pd[0]}", 0) + 1
                 if bad:
                     fails.append((kind, pd, args, bad))
+    # the same angle at two durations on one factory object (what the composite gates do with theta = pi/4 on couplings of
+    # different gate time): the second sample must follow its own duration
+    for pd in (pds if ctx.thorough else pds[:3]):
+        base = make(rng, "cr")
+        base[0] = math.pi / 4
+        for f in (1.0, 2.3):
+            args = list(base); args[2] = base[2] * f
+            try:
+                bad = case_cr(pd, *args)
+            except Exception as e:              # noqa
+                bad = [f"raised {type(e).__name__}: {e}"]
+            ctx.count()
+            hist[f"cr-sweep/{pd[0]}"] = hist.get(f"cr-sweep/{pd[0]}", 0) + 1
+            if bad:
+                first = list(base)
+                fails.append(("cr-sweep", pd, [first, args], [b + " (same angle requested before at another duration on the same factory object)" for b in bad]))
     bb = boundary_probe(rng, 200 if ctx.thorough else 60)
     ctx.count(200 if ctx.thorough else 60)
     for g, T1, T1b in bb[:1]:
@@ -298,6 +348,11 @@ def replay(ctx, path):
         return 0 if np.isfinite(G).all() else 1
     if rp["gate"] == "channel":
         print("Monte-Carlo channel test: re-run the check"); return 1
+    if rp["gate"] == "cr-sweep":                       # the earlier request on the same factory object first
+        case_cr(rp["pulse"], *rp["args"][0])
+        bad = case_cr(rp["pulse"], *rp["args"][1])
+        print(rp["gate"], rp["pulse"], rp["args"]); print("oracle:", bad or "holds")
+        return 1 if bad else 0
     bad = (case_single if rp["gate"] == "single" else case_cr)(rp["pulse"], *rp["args"])
     print(rp["gate"], rp["pulse"], rp["args"]); print("oracle:", bad or "holds")
     return 1 if bad else 0
